@@ -430,6 +430,40 @@ func runC14(e *Engine, r *Report, tier string) {
 			for _, hc := range hasRec {
 				if Dominates(hc, validates[0]) {
 					n++
+					continue
+				}
+				// the lookups written as one loop over a literal list of the addresses: the looked-up value is the loop
+				// element, the loop comes before the first Validate, and each element of the list counts
+				if h, _ := loopOf(hc.Block()); h != nil && h.Dominates(validates[0].Block()) {
+					for _, a := range nonCtxArgs(hc) {
+						ld, ok := stripConv(a).(*ssa.UnOp)
+						if !ok {
+							continue
+						}
+						ia, ok := ld.X.(*ssa.IndexAddr)
+						if !ok {
+							continue
+						}
+						var arr *ssa.Alloc
+						switch x := ia.X.(type) {
+						case *ssa.Slice:
+							arr, _ = x.X.(*ssa.Alloc)
+						case *ssa.Alloc:
+							arr = x
+						}
+						if arr == nil || arr.Referrers() == nil {
+							continue
+						}
+						for _, ref := range *arr.Referrers() {
+							if ia2, ok := ref.(*ssa.IndexAddr); ok && ia2 != ia && ia2.Referrers() != nil {
+								for _, r2 := range *ia2.Referrers() {
+									if st, ok := r2.(*ssa.Store); ok && st.Addr == ssa.Value(ia2) {
+										n++
+									}
+								}
+							}
+						}
+					}
 				}
 			}
 			r.Check(n >= 2, "R3", ck+" record-lookups", e.InstrPos(validates[0]), "both addresses checked against migration records before any handler", fmt.Sprintf("only %d migration-record lookup(s) dominate the first Validate: an address could be migrated twice", n))
